@@ -3,7 +3,9 @@ import itertools
 
 RULE = ("'ops' cases: sequences over {add,get_only,get_all,remove_only,remove_all} on names from a 3-name x 2-case pool "
         "(exhaustive to the stated depth in quick/thorough, then random longer ones); 'ascii' cases: every AsciiString "
-        "constructor on ASCII / non-ASCII text. Non-trivial = the sequence contains a lookup or removal issued when at "
+        "constructor on ASCII / non-ASCII text; 'req' cases: a field list as sent, through read_http_request -- every order of "
+        "0..3 ordinary fields with 0..3 consumed fields (exhaustive), random requests with 0..12 fields -- the exposed header "
+        "list must be the sent list minus the consumed fields, in order. Non-trivial = the sequence contains a lookup or removal issued when at "
         "least one field is present (distinct by full case text).")
 ASSUMPTIONS = ["Vec::remove / push semantics as modelled (firstn/skipn)", "str::eq_ignore_ascii_case = equality of ASCII-lowercased bytes"]
 EXHAUSTIVE = {"quick": False, "thorough": False}
@@ -80,12 +82,47 @@ def gen(rng, tier):
             cases.append("ascii %s u%s" % (ctor, ",".join(map(str, t))))
         if len(t) >= 1:
             cases.append("ascii char u%d" % t[0])
+    # 4. request level ("the header list a handler sees is the list the client sent, in order, minus the consumed
+    #    fields"): every order of 0..3 ordinary fields with 0..3 of the consumed fields (exhaustive), then random requests
+    #    with 0..12 fields, repeated and case-varied consumed names, adjacent consumed fields
+    ordinary = [("host", "h"), ("Via", "1.1 a"), ("via", "1.1 b")]
+    consumed = [("content-type", "text/plain"), ("Content-Type", "text/html"), ("Expect", "100-continue"),
+                ("transfer-encoding", "gzip")]
+    seen = set()
+    for c in range(0, 4):
+        for cs in itertools.combinations(consumed, c):
+            for n in range(0, 4):
+                for perm in itertools.permutations(list(cs) + ordinary[:n]):
+                    case = req_case("POST" if (c + n) % 2 else "GET", perm)
+                    if case not in seen:
+                        seen.add(case)
+                        cases.append(case)
+    pool_c = consumed + [("CONTENT-TYPE", "a/b"), ("expect", "other"), ("EXPECT", "100-continue"),
+                         ("Transfer-Encoding", "chunked"), ("transfer-encoding", "identity"), ("TRANSFER-ENCODING", "gzip, chunked")]
+    pool_o = ordinary + [("x-a", "1"), ("X-A", "2"), ("accept", "*/*"), ("content-length", "0"), ("cookie", "a=b"),
+                         ("content-typ", "x"), ("expectt", "y"), ("transfer-encodin", "z"), ("x-content-type", "w")]
+    for _ in range(1500 if tier == "quick" else 100000):
+        k = rng.randint(0, 12)
+        fields = []
+        for _ in range(k):
+            fields.append(rng.choice(pool_c) if rng.random() < 0.4 else rng.choice(pool_o))
+        cases.append(req_case(rng.choice(["GET", "POST", "PUT", "DELETE"]), fields))
     return cases
+
+
+def req_case(method, fields):
+    return "req %s%s" % (tok(method), "".join(" %s %s" % (tok(n), tok(v)) for n, v in fields))
 
 def classify(case, model):
     t = case.split()
     if t[0] == "ascii":
         return "ascii:" + ("accept" if model.startswith("K") else "reject")
+    if t[0] == "req":
+        names = [bytes.fromhex(x[1:]).decode("latin1").lower() for x in t[2::2]]
+        c = sum(1 for x in names if x in ("content-type", "expect", "transfer-encoding"))
+        adj = any(a in ("content-type", "expect", "transfer-encoding") and b in ("content-type", "expect", "transfer-encoding")
+                  for a, b in zip(names, names[1:]))
+        return "req:%s:consumed=%s%s" % (model.split()[0] if model else "?", min(c, 4), ":adjacent" if adj else "")
     n = (len(t) - 1)
     kinds = set(x for x in t[1:] if x in ("A", "G", "L", "R", "X"))
     return "ops:len<=%d:%s" % (8 if n <= 24 else 99, "".join(sorted(kinds)))
@@ -94,6 +131,8 @@ def nontrivial(case, model):
     t = case.split()
     if t[0] == "ascii":
         return True
+    if t[0] == "req":
+        return len(t) > 2
     # a lookup/removal result that is non-empty appears in the model observation
     return (" O " in " " + model) or any(x.startswith("L") and x != "L0" for x in model.split())
 
